@@ -4,12 +4,20 @@
 //   cfg = [W, variant, p0, p1, p2, p3, reset_hard, mode]
 //     W        1 assemble  2 build+serialize  3 compile  4 JIT runtime / allocator / virtmem  5 containers
 //     variant  W1-3: 0 x86-64, 1 AArch64      W4: 0 JitRuntime::add/release, 1 JitAllocator ops, 2 VirtMem ops
+//     p0..p3   W1/W2: extra sections+alignment, label count, base address, bits (1 logger, 2 error handler, 8 re-run through reinit(),
+//              16 previous use + reinit() inside the fault window)   W3: virtual register count, bits (1 logger, 2 error handler,
+//              4 two functions)   W4: allocator option bits, misc   W5: arena block size
 //     mode     bit0: continue after the first error (W1/W5 only; every later error is tolerated, no crash allowed)
-//   ops: [code<50, a, b, c]   program step of the workload (decoded robustly)
-//        [90, kind, k, from, size, site]  fault entry (size / site optional: only requests of that size / issued by the function
-//                             whose name hashes to `site` are counted by this entry): kind 0 arena (H1 hook) 1 heap (malloc/realloc/calloc) 2 virtual memory
-//                             (mmap/mprotect/ftruncate/shm_open/memfd_create); fail request #k (from!=0: every request >= k)
-// Oracle: see vh_run.
+//   ops: [code<50, a, b, c]             program step of the workload (decoded robustly)
+//        [90, kind, k, from, size, site]  fault entry: kind 0 arena (H1 hook) 1 heap (malloc/realloc/calloc) 2 virtual memory
+//                                       (mmap/mprotect/ftruncate/shm_open/memfd_create); fail request #k (from != 0: every request
+//                                       >= k); optional size / site restrict the entry to requests of that size / issued by the
+//                                       function whose symbolised name hashes to `site`. k is taken modulo (clean-run count + 1).
+// Oracle (vh_run): reference run on fresh objects (never faulted) -> faulty run on fresh objects -> (a) no crash / sanitizer report /
+// assertion / exception, (b) an injected fault must surface as an error of some API call or the output must be byte-identical,
+// (c) reset()/re-init of the SAME objects and a fault-free re-run must reproduce the reference output, (d) after destroying
+// everything no heap block / mapping / descriptor obtained through the wrapped entry points is live and LeakSanitizer's recoverable
+// check is clean.
 #define VH_MAIN
 #include "vh.h"
 
